@@ -228,7 +228,9 @@ def write_files(case, r, order, workdir, tag):
         else:
             chunks.append(head + "\n" + seq)
     split = len(chunks) >= 2 and fmt["split"]
-    base = os.path.join(workdir, "c%d_%s" % (case["idx"], tag))
+    # the same file names are re-used by every case a worker process handles (a result must not depend on what a path held before)
+    # (the files of the hash-seed runs, tag "h", are all written before the worker sessions read them: one name per case there)
+    base = os.path.join(workdir, ("c%d_%s" % (case["idx"], tag)) if tag == "h" else ("p%d_%s" % (os.getpid(), tag)))
     if split:
         k = int(rng.integers(1, len(chunks)))
         parts = [chunks[:k], chunks[k:]]
